@@ -1,7 +1,7 @@
 (* C02 — pool units = sum of provider units; removals never exceed holdings. *)
 From Coq Require Import ZArith List Bool.
 From Sif Require Import Base.Outcome Base.Store Base.Bank Model.ClpCalc Model.ClpTypes Model.ClpState Model.ClpMsgs
-  Proofs.ClpInv Proofs.ClpUnits.
+  Proofs.ClpInv Proofs.ClpUnits Proofs.ClpUnitsHist.
 Import ListNotations.
 Local Open Scope Z_scope.
 
@@ -48,3 +48,33 @@ Theorem C02_remove_units : forall s sg a u s',
   forall addr, addr <> sg -> lp_units_of s' a addr = lp_units_of s a addr.
 Proof. exact remove_units_units_acct. Qed.
 Print Assumptions C02_remove_units.
+
+(* ---- over histories: in every state reached by any sequence of user transactions (accepted or refused), every
+   pool's units equal the sum of its providers' units, and an asset without a pool has no provider records.
+   Side conditions along the history (units_run): the pool store stays sorted, and no liquidity is added to a pool
+   with an empty side (finding F-14, refuted above) ---- *)
+Theorem C02_history : forall txs s, units_run s txs -> UInv s -> UInv (run_txs s txs).
+Proof. exact run_txs_UInv. Qed.
+Print Assumptions C02_history.
+
+Theorem C02_message_keeps_units : forall s m s',
+  wf (cs_pools s) -> UInv s -> not_one_sided_add s m -> handle s m = Ok s' -> UInv s'.
+Proof. exact handle_UInv. Qed.
+Print Assumptions C02_message_keeps_units.
+
+Example C02_history_example :
+  let s := mkClp (mkBank [(10, [(0, 9000000000000000000000); (1, 9000000000000000000000)]);
+                          (11, [(0, 9000000000000000000000); (1, 9000000000000000000000)])] [])
+        [] [] [] 0 [] [] 5 (mkCP 0 3000000000000000 [] 0 0 [(0, 7); (1, 7)] [10] 0 false) in
+  let txs := [(1000, MCreatePool 10 1 5000000000000000000000 7000000000000000000000);
+              (1000, MAddLiquidity 11 1 3000000000000000000 0); (1000, MSwap 10 0 1 1000000000000000000 0);
+              (1000, MRemoveLiquidityUnits 11 1 1000000000000000)] in
+  UInv s /\ units_run s txs /\ usum (run_txs s txs) 1 = pool_units_of (run_txs s txs) 1 /\ 5000000000000000000000 < usum (run_txs s txs) 1.
+Proof.
+  cbv zeta. split; [|split; [|split]].
+  - intros a. reflexivity.
+  - cbn [units_run]. repeat split; try (exists 0; vm_compute; tauto); try exact I.
+    intros p Hg. vm_compute in Hg. injection Hg as <-. vm_compute. discriminate.
+  - vm_compute. reflexivity.
+  - vm_compute. reflexivity.
+Qed.
